@@ -28,7 +28,7 @@ def run(tier, seed):
         cases.append(Case('dealer_%d_%d_%d' % (c1, c2, dup), 'crypto', 'zzDKG_qual_dealer', [c1, c2, dup]))
     # Joint-Feldman observer: complaints against one dealer from a participant that is itself disqualified as a dealer
     for order in (0, 1, 2):
-        for nh in ((1, 2, 3) if thorough else (2,)):
+        for nh in ((1, 2) if thorough else (2,)):      # (complainers 2, 3; participant 4 is the observer itself: its own messages are not delivered to it)
             for ans in (False, True):
                 cases.append(Case('jf_complaints_o%d_h%d_a%d' % (order, nh, int(ans)), 'crypto', 'zzC08_jf_complaints', [order, nh, ans]))
     for mask in ((0, 1, 2, 4, 3, 7) if not thorough else range(8)):
